@@ -206,4 +206,17 @@ def reportedOk (continue_ : Bool) : List (T × Outcome) → List (T × R)
 def afterRun (old : Store) (continue_ : Bool) (plan : List (T × Outcome)) : Store :=
   finalStore old (runEffects continue_ plan)
 
+/-! ### `Runner.finish`: flush first, then the teardown actions (each may be interrupted too) -/
+
+inductive FinStep | flush | teardown (t : T)
+deriving DecidableEq, Repr
+
+/-- `finish()` = `dep_manager.close()` then `teardown()` over the registered tasks in reverse order of execution -/
+def finishSteps (tdList : List T) : List FinStep := .flush :: tdList.reverse.map .teardown
+
+/-- the persisted store after `finish()` was left by a `BaseException` raised inside its `k`-th step
+    (`k ≥ steps.length`: not interrupted): only a completed `flush` persists the in-memory effects -/
+def persistedAfterFinish (old mem : Store) (tdList : List T) (k : Nat) : Store :=
+  if FinStep.flush ∈ (finishSteps tdList).take k then mem else old
+
 end DoitModel.Crash
